@@ -263,6 +263,7 @@ func c15(c *Ctx) {
 		c15Relay(c, px)
 		c15Events(c, px)
 		c15HalfClose(c, px)
+		c15TeeWriters(c, px)
 	}
 	c15Forward(c)
 	c15Wiring(c)
